@@ -11,6 +11,10 @@ CHECKS = {
             "Every operation history up to the stated length (all 15^5 full-alphabet and 6^8 core-alphabet histories in quick; 15^6 / 6^10 in thorough) plus long PRNG histories is executed on the real LinkedListQueue and compared call by call with an ideal deque; held = no disagreement, panic or non-returning call on any executed history. Exhaustive within the bound, sampled beyond it.",
             "Trusted: the 30-line slice deque model; Go runtime. Histories longer than the bound are only sampled.",
             "DESIGN.md section 5, C06"),
+    "C03": ("exploration", "differential reference-model monitor over bounded-exhaustive inputs with sentinel-guarded backing arrays",
+            "Every listed helper is called on every list of length 0..5 (thorough 0..7) over a 3-symbol alphabet plus nil, for int/string/struct elements, with every count in [-3,len+3], predicate/transformer families and all list pairs up to length 3, and compared with an independent model; inputs are snapshotted (including sentinel-filled spare capacity) and compared after the call. Exhaustive within the bound, PRNG lists up to length 64 beyond it.",
+            "Trusted: the per-helper models written from the doc comments (degenerate-parameter pins listed in DESIGN.md C03).",
+            "DESIGN.md section 5, C03"),
 }
 
 NOT_YET = "check not built yet in this session (runtime monitoring applies; see DESIGN.md section 5)"
